@@ -123,6 +123,8 @@ structure Proxy where
   prevLocalSvc : Option (Nat × Nat) := none
   /-- `ServiceTargets`: (hostname, namespace) of each target's service -/
   targets   : List (Nat × Nat) := []
+  /-- `PrevServiceTargets`: the targets before the most recent `SetServiceTargets` -/
+  prevTargets : List (Nat × Nat) := []
   scope     : Option Scope := none
   prevScope : Option Scope := none
   mg        : Option MG := none
@@ -264,8 +266,15 @@ def selfDiscoveryKeeps (p : Proxy) (k : Key) : Bool :=
 def keyRelevant (p : Proxy) (root : Nat) (k : Key) : Bool :=
   proxyDependentOnConfig p k root || selfDiscoveryKeeps p k
 
-/-- the second loop: keys of the proxy's own services that are in `ConfigsUpdated` -/
+/-- the second loop: keys of the proxy's own services - current and previous service targets -
+    that are in `ConfigsUpdated` -/
 def targetKeys (p : Proxy) (keys : List Key) : List Key :=
+  ((p.targets ++ p.prevTargets).map (fun t => ({ kind := .serviceEntry, name := t.1, ns := t.2 } : Key))).filter
+    (fun k => keys.contains k)
+
+/-- The second loop before the repair (`fix:` commit in /repo, see notes/C01.md): only the current
+    service targets, which `computeProxyState` has just refreshed. Kept for `*_witness_unfixed`. -/
+def targetKeysOld (p : Proxy) (keys : List Key) : List Key :=
   (p.targets.map (fun t => ({ kind := .serviceEntry, name := t.1, ns := t.2 } : Key))).filter
     (fun k => keys.contains k)
 
@@ -308,8 +317,15 @@ def waypointNeedsPush (r : Req) (p : Proxy) : Bool :=
   else if p.isEW then true
   else r.wrefs.any (fun ref => ref.matchesProxy p)
 
-/-- `headlessOnly` as initialised by cds/rds (lds adds `proxy.Type == Router`). -/
-def headlessInit (r : Req) : Bool := r.has .headless && !r.has .service
+/-- `headlessEndpointOnly` (xdsgen.go): the request was triggered exclusively by headless endpoint
+    updates - `len(req.Reason) == 1 && req.Reason.Has(HeadlessEndpointUpdate)`; `Reason` is a map, so
+    its length is the number of distinct reasons. This is `headlessOnly` as initialised by cds/rds
+    (lds adds `proxy.Type == Router`). -/
+def headlessInit (r : Req) : Bool := !r.reasons.isEmpty && r.reasons.all (fun x => x == .headless)
+
+/-- The initialisation before the repair (`fix:` commit in /repo, see notes/C01.md):
+    `Has(HeadlessEndpointUpdate) && !Has(ServiceUpdate)`. Kept for `*_witness_unfixed`. -/
+def headlessInitOld (r : Req) : Bool := r.has .headless && !r.has .service
 
 /-- accumulator of the loop of `cdsNeedsPush` -/
 structure CdsAcc where
